@@ -46,7 +46,7 @@ MINIMA = {'local_valid_opening_accepted': 3000, 'local_invalid_opening_refused':
           'next_id_exhausted_checked': 100, 'peer_fresh_opening_accepted': 3000, 'peer_wrong_parity_judged': 300,
           'peer_skipped_id_judged': 300, 'peer_reset_id_stream_error': 300, 'peer_ended_id_conn_error': 300,
           'priority_neutrality_checked': 2000, 'opening_after_priority_on_higher_id': 300,
-          'wire_openings_checked': 3000, 'failed_opening_id_unused_checked': 300, 'failed_opening_with_skipping_id_checked': 100, 'refused_promise_id_recorded': 100, 'stale_promise_on_reset_parent': 30, 'peer_promised_again_judged': 30, 'classified_after_cleanup': 300, 'classified_while_saturated': 100}
+          'wire_openings_checked': 3000, 'failed_opening_id_unused_checked': 300, 'failed_opening_with_skipping_id_checked': 100, 'refused_promise_id_recorded': 100, 'stale_promise_on_reset_parent': 30, 'client_headers_on_closed_pushed_stream': 30, 'peer_promised_again_judged': 30, 'classified_after_cleanup': 300, 'classified_while_saturated': 100}
 EXHAUSTIVE = {}
 
 TOP = 2 ** 31 - 1
@@ -344,6 +344,8 @@ def run_case(idx, rng, tier, rep):
             classes.append(who_kind)
         if e_client:
             classes.append('promised-again')
+        else:
+            classes.append('own-pushed')
         klass = rng.choice(classes)
         cleaned = rng.random() < 0.5
         if klass == 'parity':
@@ -362,6 +364,15 @@ def run_case(idx, rng, tier, rep):
             if not c:
                 return
             y = rng.choice(c)
+        elif klass == 'own-pushed':
+            # HEADERS from the client on a stream the server itself pushed, after that stream was reset or has ended: judged by how
+            # the stream was closed, like any other closed stream - however far the client's own ids have got
+            c = [s for s, v in used.items() if v['by'] == 'E' and s % 2 == 0 and v['fate'] in ('rst_e', 'rst_p', 'end')]
+            if not c:
+                return
+            y = rng.choice(sorted(c))
+            klass = 'reset' if used[y]['fate'] in ('rst_e', 'rst_p') else 'ended'
+            rep.count('client_headers_on_closed_pushed_stream')
         elif klass == 'promised-again':
             # an id the peer has promised and whose stream is still reserved or live
             c = [s for s, v in used.items() if v['by'] == 'P' and v['fate'] == 'reserved']
